@@ -22,6 +22,9 @@ theorem beq_eq : ∀ (a b : STy), STy.beq a b = true → a = b
   | .arr a, b, h => by
     cases b <;> simp [STy.beq] at h ⊢
     exact beq_eq _ _ h
+  | .tvar n, b, h => by
+    cases b <;> simp [STy.beq] at h ⊢
+    exact h
 theorem beqList_eq : ∀ (as bs : List STy), beqList as bs = true → as = bs
   | [], bs, h => by cases bs <;> simp [beqList] at h ⊢
   | a :: as, bs, h => by
@@ -94,8 +97,229 @@ theorem isCmpOp_sound {op : String} (h : isCmpOp op = true) : cmpOp op := by
   simp [isCmpOp] at h
   exact h
 
+
+/-! ### substitution of type variables -/
+
+theorem substList_eq_map (R : Nat → STy) : ∀ ts : List STy, substList R ts = ts.map (STy.subst R)
+  | [] => rfl
+  | t :: ts => by simp [substList, substList_eq_map R ts]
+
+theorem substList_length (R : Nat → STy) (ts : List STy) : (substList R ts).length = ts.length := by
+  simp [substList_eq_map]
+
+theorem substList_get {R : Nat → STy} {ts : List STy} {i : Nat} {τ : STy} (h : ts[i]? = some τ) :
+    (substList R ts)[i]? = some (τ.subst R) := by
+  rw [substList_eq_map]; simp [h]
+
 mutual
-theorem patCheck_sound : ∀ (p : Pat) (τ : STy) (Δ : Ctx), patCheck D p τ = some Δ → PatType D p τ Δ
+/-- composition: substituting twice is substituting once with the composed substitution -/
+theorem subst_comp (S R : Nat → STy) : ∀ t : STy,
+    (t.subst S).subst R = t.subst (fun n => (S n).subst R)
+  | .int => by simp [STy.subst]
+  | .str => by simp [STy.subst]
+  | .bool => by simp [STy.subst]
+  | .fn a b => by simp [STy.subst, subst_comp S R a, subst_comp S R b]
+  | .recd fs => by simp [STy.subst, substList_comp S R fs]
+  | .named d => by simp [STy.subst]
+  | .arr t => by simp [STy.subst, subst_comp S R t]
+  | .tvar n => by simp [STy.subst]
+theorem substList_comp (S R : Nat → STy) : ∀ ts : List STy,
+    substList R (substList S ts) = substList (fun n => (S n).subst R) ts
+  | [] => by simp [substList]
+  | t :: ts => by simp [substList, subst_comp S R t, substList_comp S R ts]
+end
+
+mutual
+/-- a substitution matters only on the variables that occur -/
+theorem subst_congr (R R' : Nat → STy) : ∀ t : STy,
+    (∀ n, t.occurs n = true → R n = R' n) → t.subst R = t.subst R'
+  | .int, _ => by simp [STy.subst]
+  | .str, _ => by simp [STy.subst]
+  | .bool, _ => by simp [STy.subst]
+  | .fn a b, h => by
+    simp only [STy.subst]
+    rw [subst_congr R R' a (fun n hn => h n (by simp [STy.occurs, hn])),
+        subst_congr R R' b (fun n hn => h n (by simp [STy.occurs, hn]))]
+  | .recd fs, h => by
+    simp only [STy.subst]
+    rw [substList_congr R R' fs (fun n hn => h n (by simp [STy.occurs, hn]))]
+  | .named d, _ => by simp [STy.subst]
+  | .arr t, h => by
+    simp only [STy.subst]
+    rw [subst_congr R R' t (fun n hn => h n (by simp [STy.occurs, hn]))]
+  | .tvar m, h => by
+    simp only [STy.subst]
+    exact h m (by simp [STy.occurs])
+theorem substList_congr (R R' : Nat → STy) : ∀ ts : List STy,
+    (∀ n, occursList n ts = true → R n = R' n) → substList R ts = substList R' ts
+  | [], _ => by simp [substList]
+  | t :: ts, h => by
+    simp only [substList]
+    rw [subst_congr R R' t (fun n hn => h n (by simp [occursList, hn])),
+        substList_congr R R' ts (fun n hn => h n (by simp [occursList, hn]))]
+end
+
+mutual
+theorem subst_id : ∀ t : STy, t.subst STy.tvar = t
+  | .int => by simp [STy.subst]
+  | .str => by simp [STy.subst]
+  | .bool => by simp [STy.subst]
+  | .fn a b => by simp [STy.subst, subst_id a, subst_id b]
+  | .recd fs => by simp [STy.subst, substList_id fs]
+  | .named d => by simp [STy.subst]
+  | .arr t => by simp [STy.subst, subst_id t]
+  | .tvar n => by simp [STy.subst]
+theorem substList_id : ∀ ts : List STy, substList STy.tvar ts = ts
+  | [] => by simp [substList]
+  | t :: ts => by simp [substList, subst_id t, substList_id ts]
+end
+
+theorem funTy_subst (R : Nat → STy) : ∀ (σs : List STy) (τ : STy),
+    (funTy σs τ).subst R = funTy (substList R σs) (τ.subst R)
+  | [], τ => by simp [funTy, substList]
+  | a :: as, τ => by simp [funTy, substList, STy.subst, funTy_subst R as τ]
+
+theorem instSub_not_mem : ∀ {vs : List Nat} {ts : List STy} {n : Nat}, n ∉ vs → instSub vs ts n = .tvar n
+  | [], _, _, _ => by simp [instSub]
+  | v :: vs, [], _, _ => by simp [instSub]
+  | v :: vs, t :: ts, n, h => by
+    simp only [List.mem_cons, not_or] at h
+    simp only [instSub, h.1, if_false]
+    exact instSub_not_mem h.2
+
+/-! ### the meaning of syntactic schemes -/
+
+def substM (R : Nat → STy) (Δ : MCtx) : MCtx := Δ.map fun b => (b.1, b.2.subst R)
+
+theorem substM_append (R : Nat → STy) (a b : MCtx) : substM R (a ++ b) = substM R a ++ substM R b := by
+  simp [substM]
+
+theorem lookup_den (R : Nat → STy) : ∀ {Γ : PCtx} {x : String} {s : Scheme},
+    lookupCtx Γ x = some s → lookupCtx (denCtx R Γ) x = some (den R s)
+  | [], x, s, h => by simp [lookupCtx] at h
+  | (y, s') :: Γ, x, s, h => by
+    simp only [lookupCtx, denCtx, List.map_cons] at h ⊢
+    split at h
+    · rename_i hxy
+      simp only [hxy, if_true]
+      cases h; rfl
+    · rename_i hxy
+      simp only [hxy, if_false]
+      exact lookup_den R h
+
+/-- a scheme without quantified variables is a monomorphic binding -/
+theorem den_mono (R : Nat → STy) (τ : STy) : den R ([], τ) = Sch.mono (τ.subst R) := by
+  funext t
+  apply propext
+  constructor
+  · rintro ⟨R', h1, h2⟩
+    have : R' = R := funext fun n => h1 n (by simp)
+    subst this
+    exact h2
+  · intro h
+    exact ⟨R, fun _ _ => rfl, h⟩
+
+theorem denCtx_bind (R : Nat → STy) : ∀ (xs : List String) (τs : List STy) (Γ : PCtx),
+    denCtx R (bindP xs τs Γ) = bindCtx xs (substList R τs) (denCtx R Γ)
+  | [], τs, Γ => by simp [bindP, bindCtx]
+  | x :: xs, [], Γ => by simp [bindP, bindCtx, substList]
+  | x :: xs, t :: ts, Γ => by
+    simp only [bindP, bindCtx, substList]
+    rw [denCtx_bind R xs ts]
+    simp [denCtx, den_mono]
+
+theorem denCtx_lift (R : Nat → STy) (Γ : PCtx) : ∀ (Δ : MCtx),
+    denCtx R (liftP Δ ++ Γ) = liftCtx (substM R Δ) ++ denCtx R Γ
+  | [] => by simp [liftP, liftCtx, substM]
+  | b :: Δ => by
+    have ih := denCtx_lift R Γ Δ
+    simp only [liftP, liftCtx, substM, denCtx, List.map_cons, List.cons_append, List.map_append,
+      List.map_map] at ih ⊢
+    rw [den_mono]
+    simp only [List.cons.injEq, true_and]
+    simpa using ih
+
+theorem zip_den (R : Nat → STy) : ∀ (g : List (String × List String × Expr)) (τs : List STy),
+    ((g.zip τs).map fun (b, t) => (b.1, den R (([] : List Nat), t))) =
+      ((g.zip (substList R τs)).map fun (b, t) => (b.1, Sch.mono t))
+  | [], τs => by simp
+  | b :: g, [] => by simp [substList]
+  | b :: g, t :: ts => by
+    have ih := zip_den R g ts
+    simp only [substList, List.zip_cons_cons, List.map_cons, den_mono] at ih ⊢
+    rw [ih]
+
+theorem denCtx_rec (R : Nat → STy) (g : List (String × List String × Expr)) (τs : List STy) (Γ : PCtx) :
+    denCtx R (recP g τs Γ) = recCtx g (substList R τs) (denCtx R Γ) := by
+  unfold recP recCtx denCtx
+  simp only [List.map_append, List.map_reverse, List.map_map]
+  congr 2
+  have := zip_den R g τs
+  simpa [Function.comp_def] using this
+
+/-- one inclusion of `den_agree` -/
+theorem den_sub (R R' : Nat → STy) (ws : List Nat) (t : STy)
+    (h : ∀ n, t.occurs n = true → n ∉ ws → R' n = R n) (u : STy) :
+    den R' (ws, t) u → den R (ws, t) u := by
+  rintro ⟨R'', h1, h2⟩
+  refine ⟨fun n => if n ∈ ws then R'' n else R n, ?_, ?_⟩
+  · intro n hn
+    simp only [] at hn
+    simp [hn]
+  · rw [h2]
+    apply subst_congr
+    intro n hocc
+    by_cases hn : n ∈ ws
+    · simp [hn]
+    · simp only [hn, if_false]
+      rw [h1 n hn, h n hocc hn]
+
+/-- valuations that agree on the FREE variables of a scheme give it the same meaning -/
+theorem den_agree (R R' : Nat → STy) (ws : List Nat) (t : STy)
+    (h : ∀ n, t.occurs n = true → n ∉ ws → R' n = R n) : den R' (ws, t) = den R (ws, t) := by
+  funext u
+  apply propext
+  exact ⟨den_sub R R' ws t h u, den_sub R' R ws t (fun n h1 h2 => (h n h1 h2).symm) u⟩
+
+/-- the core of generalisation: re-valuing variables that are not free in the context does not
+    change the meaning of the context -/
+theorem denCtx_agree (R R' : Nat → STy) (vs : List Nat) : ∀ (Γ : PCtx),
+    (∀ n, n ∉ vs → R' n = R n) → (∀ v, v ∈ vs → freeInCtx v Γ = false) → denCtx R' Γ = denCtx R Γ
+  | [], _, _ => rfl
+  | (x, (ws, t)) :: Γ, hag, hfree => by
+    simp only [denCtx, List.map_cons]
+    have ih := denCtx_agree R R' vs Γ hag (fun v hv => by
+      have := hfree v hv
+      simp only [freeInCtx, Bool.or_eq_false_iff] at this
+      exact this.2)
+    simp only [denCtx] at ih
+    rw [ih, den_agree R R' ws t]
+    intro n hocc hn
+    apply hag
+    intro hvs
+    have := hfree n hvs
+    simp only [freeInCtx, Bool.or_eq_false_iff] at this
+    have h1 := this.1
+    simp [hocc, hn] at h1
+
+theorem layout_subst (R : Nat → STy) : ∀ {l : List Src} {σs βs τs : List STy},
+    LayoutOk l σs βs τs → LayoutOk l (substList R σs) (substList R βs) (substList R τs) := by
+  intro l
+  induction l with
+  | nil => intro σs βs τs h; cases h; exact .nil
+  | cons s l ih =>
+    intro σs βs τs h
+    cases h with
+    | field hi hl => exact .field (substList_get hi) (ih hl)
+    | base hj hl => exact .base (substList_get hj) (ih hl)
+
+theorem substList_replicate (R : Nat → STy) (n : Nat) (t : STy) :
+    substList R (List.replicate n t) = List.replicate n (t.subst R) := by
+  rw [substList_eq_map]; simp
+
+mutual
+theorem patCheck_sound (hD : DClosed D) (R : Nat → STy) : ∀ (p : Pat) (τ : STy) (Δ : MCtx),
+    patCheck D p τ = some Δ → PatType D p (τ.subst R) (substM R Δ)
   | .wild, τ, Δ, h => by simp [patCheck] at h; subst h; exact .wild
   | .var x, τ, Δ, h => by simp [patCheck] at h; subst h; exact .var
   | .int n, τ, Δ, h => by
@@ -108,20 +332,22 @@ theorem patCheck_sound : ∀ (p : Pat) (τ : STy) (Δ : Ctx), patCheck D p τ = 
     cases τ <;> simp only [patCheck] at h <;> try (cases h)
     split at h
     · rename_i τs hd
-      exact .ctor hd (patsCheck_sound ps τs Δ h)
+      have := patsCheck_sound hD R ps τs Δ h
+      rw [hD _ _ _ hd R] at this
+      exact .ctor hd this
     · cases h
   | .record fs, τ, Δ, h => by
     cases τ <;> simp only [patCheck] at h <;> try (cases h)
-    exact .record (fieldsCheck_sound fs _ Δ h)
+    exact .record (fieldsCheck_sound hD R fs _ Δ h)
   | .as x p, τ, Δ, h => by
     simp only [patCheck] at h
     split at h
     · rename_i Δ' hp
       cases h
-      exact .as (patCheck_sound p τ Δ' hp)
+      exact .as (patCheck_sound hD R p τ Δ' hp)
     · cases h
-theorem patsCheck_sound : ∀ (ps : List Pat) (τs : List STy) (Δ : Ctx),
-    patsCheck D ps τs = some Δ → PatsType D ps τs Δ
+theorem patsCheck_sound (hD : DClosed D) (R : Nat → STy) : ∀ (ps : List Pat) (τs : List STy) (Δ : MCtx),
+    patsCheck D ps τs = some Δ → PatsType D ps (substList R τs) (substM R Δ)
   | [], τs, Δ, h => by
     cases τs <;> simp [patsCheck] at h
     subst h; exact .nil
@@ -135,11 +361,12 @@ theorem patsCheck_sound : ∀ (ps : List Pat) (τs : List STy) (Δ : Ctx),
         split at h
         · rename_i Δ₂ h2
           cases h
-          exact .cons (patCheck_sound p τ Δ₁ h1) (patsCheck_sound ps τs Δ₂ h2)
+          rw [substM_append]
+          exact .cons (patCheck_sound hD R p τ Δ₁ h1) (patsCheck_sound hD R ps τs Δ₂ h2)
         · cases h
       · cases h
-theorem fieldsCheck_sound : ∀ (fs : List (Nat × Pat)) (τs : List STy) (Δ : Ctx),
-    fieldsCheck D fs τs = some Δ → FieldsType D fs τs Δ
+theorem fieldsCheck_sound (hD : DClosed D) (R : Nat → STy) : ∀ (fs : List (Nat × Pat)) (τs : List STy) (Δ : MCtx),
+    fieldsCheck D fs τs = some Δ → FieldsType D fs (substList R τs) (substM R Δ)
   | [], τs, Δ, h => by simp [fieldsCheck] at h; subst h; exact .nil
   | (i, p) :: fs, τs, Δ, h => by
     simp only [fieldsCheck] at h
@@ -150,7 +377,8 @@ theorem fieldsCheck_sound : ∀ (fs : List (Nat × Pat)) (τs : List STy) (Δ : 
         split at h
         · rename_i Δ₂ h2
           cases h
-          exact .cons hi (patCheck_sound p τ Δ₁ h1) (fieldsCheck_sound fs τs Δ₂ h2)
+          rw [substM_append]
+          exact .cons (substList_get hi) (patCheck_sound hD R p τ Δ₁ h1) (fieldsCheck_sound hD R fs τs Δ₂ h2)
         · cases h
       · cases h
     · cases h
@@ -169,11 +397,28 @@ theorem map_fst_ne_nil {α β} {xs : List (α × β)} (h : xs.isEmpty = false) :
   | cons _ _ => simp
 
 mutual
-theorem inferA_sound : ∀ (a : AExpr) {Γ : Ctx} {τ : STy}, inferA D Γ a = some τ → HasType D Γ a.erase τ
-  | .int n, Γ, τ, h => by simp [inferA] at h; subst h; exact .int
-  | .str s, Γ, τ, h => by simp [inferA] at h; subst h; exact .str
-  | .var x, Γ, τ, h => by simp only [inferA] at h; exact .var h
-  | .lam xs body, Γ, τ, h => by
+/-- Soundness of the polymorphic checker: under EVERY valuation `R` of the type variables the
+    erased program has the instance `τ.subst R` in the meaning of the context. (This is the
+    substitution lemma for schemes in the form the checker needs: `letp` uses it at the
+    re-valued `R'`, `denCtx_agree` brings the context back.) -/
+theorem inferA_sound (hD : DClosed D) : ∀ (a : AExpr) {Γ : PCtx} {τ : STy}, inferA D Γ a = some τ →
+    ∀ R : Nat → STy, HasType D (denCtx R Γ) a.erase (τ.subst R)
+  | .int n, Γ, τ, h, R => by simp [inferA] at h; subst h; exact .int
+  | .str s, Γ, τ, h, R => by simp [inferA] at h; subst h; exact .str
+  | .var x insts, Γ, τ, h, R => by
+    simp only [inferA] at h
+    split at h
+    · rename_i vs τ₀ hl
+      split at h
+      · cases h
+        refine .var (lookup_den R hl) ?_
+        refine ⟨fun n => (instSub vs insts n).subst R, ?_, ?_⟩
+        · intro n hn
+          simp only [instSub_not_mem hn, STy.subst]
+        · exact subst_comp _ _ _
+      · cases h
+    · cases h
+  | .lam xs body, Γ, τ, h, R => by
     simp only [inferA] at h
     split at h
     · cases h
@@ -182,33 +427,60 @@ theorem inferA_sound : ∀ (a : AExpr) {Γ : Ctx} {τ : STy}, inferA D Γ a = so
       · rename_i ρ hb
         cases h
         simp only [AExpr.erase]
-        exact .lam (map_fst_ne_nil (by simpa using hne)) (by simp) (inferA_sound body hb) rfl
+        rw [funTy_subst]
+        have hbody := inferA_sound hD body hb R
+        rw [denCtx_bind] at hbody
+        exact .lam (map_fst_ne_nil (by simpa using hne)) (by simp [substList_length]) hbody rfl
       · cases h
-  | .app f args, Γ, τ, h => by
+  | .app f args, Γ, τ, h, R => by
     simp only [inferA] at h
     split at h
     · rename_i φ hf
       split at h
       · rename_i σs hargs
-        exact .app (inferA_sound f hf) (peel_sound σs φ τ h) (inferList_sound args hargs)
+        exact .app (inferA_sound hD f hf R) (by rw [peel_sound σs φ τ h, funTy_subst])
+          (inferList_sound hD args hargs R)
       · cases h
     · cases h
-  | .let_ p e₁ e₂, Γ, τ, h => by
+  | .let_ p e₁ e₂, Γ, τ, h, R => by
     simp only [inferA] at h
     split at h
     · rename_i σ h1
       split at h
       · rename_i Δ hp
-        exact .let_ (inferA_sound e₁ h1) (patCheck_sound p σ Δ hp) (inferA_sound e₂ h)
+        have h2 := inferA_sound hD e₂ h R
+        rw [denCtx_lift] at h2
+        exact .let_ (inferA_sound hD e₁ h1 R) (patCheck_sound hD R p σ Δ hp) h2
       · cases h
     · cases h
-  | .letrec binds body, Γ, τ, h => by
+  | .letp x vs e₁ e₂, Γ, τ, h, R => by
+    simp only [inferA] at h
+    split at h
+    · rename_i τ₁ h1
+      split at h
+      · rename_i hfree
+        simp only [AExpr.erase]
+        have h2 := inferA_sound hD e₂ h R
+        refine .letGen (S := den R (vs, τ₁)) (σ := τ₁.subst R) ⟨R, fun _ _ => rfl, rfl⟩ ?_ h2
+        rintro τ' ⟨R', hagree, rfl⟩
+        have h1' := inferA_sound hD e₁ h1 R'
+        rw [denCtx_agree R R' vs Γ hagree (by
+          intro v hv
+          have := List.all_eq_true.mp hfree v hv
+          simpa using this)] at h1'
+        exact h1'
+      · cases h
+    · cases h
+  | .letrec binds body, Γ, τ, h, R => by
     simp only [inferA] at h
     split at h
     · rename_i hb
-      exact .letrec (checkBinds_sound binds hb) (inferA_sound body h)
+      have hg := checkBinds_sound hD binds hb R
+      have hbody := inferA_sound hD body h R
+      rw [denCtx_rec] at hg hbody
+      exact .letrec hg hbody
     · cases h
-  | .ite c a b, Γ, τ, h => by
+  | .ite c a b, Γ, τ, h, R => by
     simp only [inferA] at h
     split at h
     · rename_i τ₁ τ₂ hc ha hb
@@ -217,115 +489,137 @@ theorem inferA_sound : ∀ (a : AExpr) {Γ : Ctx} {τ : STy}, inferA D Γ a = so
         cases h
         have := beq_eq _ _ heq
         subst this
-        exact .ite (inferA_sound c hc) (inferA_sound a ha) (inferA_sound b hb)
+        have hc' := inferA_sound hD c hc R
+        simp only [STy.subst] at hc'
+        exact .ite hc' (inferA_sound hD a ha R) (inferA_sound hD b hb R)
       · cases h
     · cases h
-  | .prim op a b, Γ, τ, h => by
+  | .prim op a b, Γ, τ, h, R => by
     simp only [inferA] at h
     split at h
     · rename_i ha hb
+      have ha' := inferA_sound hD a ha R
+      have hb' := inferA_sound hD b hb R
+      simp only [STy.subst] at ha' hb'
       split at h
       · rename_i hop
         cases h
-        exact .primInt (isIntOp_sound hop) (inferA_sound a ha) (inferA_sound b hb)
+        exact .primInt (isIntOp_sound hop) ha' hb'
       · split at h
         · rename_i hop
           cases h
-          exact .primCmp (isCmpOp_sound hop) (inferA_sound a ha) (inferA_sound b hb)
+          exact .primCmp (isCmpOp_sound hop) ha' hb'
         · cases h
     · cases h
-  | .and_ a b, Γ, τ, h => by
+  | .and_ a b, Γ, τ, h, R => by
     simp only [inferA] at h
     split at h
     · rename_i ha hb
       cases h
-      exact .and_ (inferA_sound a ha) (inferA_sound b hb)
+      have ha' := inferA_sound hD a ha R
+      have hb' := inferA_sound hD b hb R
+      simp only [STy.subst] at ha' hb'
+      exact .and_ ha' hb'
     · cases h
-  | .or_ a b, Γ, τ, h => by
+  | .or_ a b, Γ, τ, h, R => by
     simp only [inferA] at h
     split at h
     · rename_i ha hb
       cases h
-      exact .or_ (inferA_sound a ha) (inferA_sound b hb)
+      have ha' := inferA_sound hD a ha R
+      have hb' := inferA_sound hD b hb R
+      simp only [STy.subst] at ha' hb'
+      exact .or_ ha' hb'
     · cases h
-  | .ctor d tag arity, Γ, τ, h => by
+  | .ctor d tag arity, Γ, τ, h, R => by
     simp only [inferA] at h
     split at h
     · rename_i τs hd
       split at h
       · rename_i har
         cases h
+        rw [funTy_subst, hD _ _ _ hd R]
         exact .ctor hd (by simpa using har) rfl
       · cases h
     · cases h
-  | .bool b, Γ, τ, h => by
+  | .bool b, Γ, τ, h, R => by
     simp [inferA] at h; subst h
     cases b
     · exact .false_
     · exact .true_
-  | .match_ s alts t, Γ, τ, h => by
+  | .match_ s alts t, Γ, τ, h, R => by
     simp only [inferA] at h
     split at h
     · rename_i σ hs
       split at h
       · rename_i ha
         cases h
-        exact .match_ (inferA_sound s hs) (checkAlts_sound alts ha)
+        exact .match_ (inferA_sound hD s hs R) (checkAlts_sound hD alts ha R)
       · cases h
     · cases h
-  | .record fields none layout, Γ, τ, h => by
+  | .record fields none layout, Γ, τ, h, R => by
     simp only [inferA] at h
     split at h
     · rename_i σs hf
       split at h
       · rename_i τs hl
         cases h
-        exact .record (inferList_sound fields hf) (checkLayout_sound _ _ _ _ hl)
+        have hlay := layout_subst R (checkLayout_sound _ _ _ _ hl)
+        simp only [substList] at hlay
+        exact .record (inferList_sound hD fields hf R) hlay
       · cases h
     · cases h
-  | .record fields (some be) layout, Γ, τ, h => by
+  | .record fields (some be) layout, Γ, τ, h, R => by
     simp only [inferA] at h
     split at h
     · rename_i σs βs hf hb
       split at h
       · rename_i τs hl
         cases h
-        exact .update (inferList_sound fields hf) (inferA_sound be hb) (checkLayout_sound _ _ _ _ hl)
+        have hbe := inferA_sound hD be hb R
+        simp only [STy.subst] at hbe
+        exact .update (inferList_sound hD fields hf R) hbe (layout_subst R (checkLayout_sound _ _ _ _ hl))
       · cases h
     · cases h
-  | .proj e i, Γ, τ, h => by
+  | .proj e i, Γ, τ, h, R => by
     simp only [inferA] at h
     split at h
     · rename_i τs he
-      exact .proj (inferA_sound e he) h
+      have he' := inferA_sound hD e he R
+      simp only [STy.subst] at he'
+      exact .proj he' (substList_get h)
     · cases h
-  | .array t es, Γ, τ, h => by
+  | .array t es, Γ, τ, h, R => by
     simp only [inferA] at h
     split at h
     · rename_i τs hes
       split at h
       · rename_i hall
         cases h
-        have hts := inferList_sound es hes
+        have hts := inferList_sound hD es hes R
         have hlen := hasTypes_length hts
-        exact .array hts (by rw [← hlen]; exact allBeq_sound τs t hall)
+        refine .array hts ?_
+        rw [← hlen, substList_length]
+        conv => lhs; rw [allBeq_sound τs t hall]
+        exact substList_replicate R _ _
       · cases h
     · cases h
-  | .error msg t, Γ, τ, h => by simp [inferA] at h; subst h; exact .error
-theorem inferList_sound : ∀ (es : AList) {Γ : Ctx} {τs : List STy},
-    inferList D Γ es = some τs → HasTypes D Γ es.erase τs
-  | .nil, Γ, τs, h => by simp [inferList] at h; subst h; exact .nil
-  | .cons e es, Γ, τs, h => by
+  | .error msg t, Γ, τ, h, R => by simp [inferA] at h; subst h; exact .error
+theorem inferList_sound (hD : DClosed D) : ∀ (es : AList) {Γ : PCtx} {τs : List STy},
+    inferList D Γ es = some τs → ∀ R : Nat → STy, HasTypes D (denCtx R Γ) es.erase (substList R τs)
+  | .nil, Γ, τs, h, R => by simp [inferList] at h; subst h; exact .nil
+  | .cons e es, Γ, τs, h, R => by
     simp only [inferList] at h
     split at h
     · rename_i τ τs' he hes
       cases h
-      exact .cons (inferA_sound e he) (inferList_sound es hes)
+      exact .cons (inferA_sound hD e he R) (inferList_sound hD es hes R)
     · cases h
-theorem checkAlts_sound : ∀ (alts : AAlts) {Γ : Ctx} {σ t : STy},
-    checkAlts D Γ σ alts t = true → HasAlts D Γ σ alts.erase t
-  | .nil, Γ, σ, t, h => .nil
-  | .cons p e rest, Γ, σ, t, h => by
+theorem checkAlts_sound (hD : DClosed D) : ∀ (alts : AAlts) {Γ : PCtx} {σ t : STy},
+    checkAlts D Γ σ alts t = true → ∀ R : Nat → STy,
+      HasAlts D (denCtx R Γ) (σ.subst R) alts.erase (t.subst R)
+  | .nil, Γ, σ, t, h, R => .nil
+  | .cons p e rest, Γ, σ, t, h, R => by
     simp only [checkAlts] at h
     split at h
     · rename_i Δ hp
@@ -334,22 +628,33 @@ theorem checkAlts_sound : ∀ (alts : AAlts) {Γ : Ctx} {σ t : STy},
         simp only [Bool.and_eq_true] at h
         have := beq_eq _ _ h.1
         subst this
-        exact .cons (patCheck_sound p σ Δ hp) (inferA_sound e he) (checkAlts_sound rest h.2)
+        have he' := inferA_sound hD e he R
+        rw [denCtx_lift] at he'
+        exact .cons (patCheck_sound hD R p σ Δ hp) he' (checkAlts_sound hD rest h.2 R)
       · cases h
     · cases h
-theorem checkBinds_sound : ∀ (binds : ABinds) {Γ' : Ctx},
-    checkBinds D Γ' binds = true → HasGroup D Γ' binds.erase binds.tys
-  | .nil, Γ', h => .nil
-  | .cons f params ret body rest, Γ', h => by
+theorem checkBinds_sound (hD : DClosed D) : ∀ (binds : ABinds) {Γ' : PCtx},
+    checkBinds D Γ' binds = true → ∀ R : Nat → STy,
+      HasGroup D (denCtx R Γ') binds.erase (substList R binds.tys)
+  | .nil, Γ', h, R => .nil
+  | .cons f params ret body rest, Γ', h, R => by
     simp only [checkBinds, Bool.and_eq_true] at h
     obtain ⟨⟨hne, hb⟩, hrest⟩ := h
     split at hb
     · rename_i ρ hbody
       have := beq_eq _ _ hb
       subst this
-      exact .cons (by simp) (map_fst_ne_nil (by simpa using hne)) (inferA_sound body hbody)
-        (checkBinds_sound rest hrest)
+      have hbody' := inferA_sound hD body hbody R
+      rw [denCtx_bind] at hbody'
+      simp only [ABinds.tys, ABinds.erase, substList, funTy_subst]
+      exact .cons (by simp [substList_length]) (map_fst_ne_nil (by simpa using hne)) hbody'
+        (checkBinds_sound hD rest hrest R)
     · cases hb
 end
+
+theorem surfDeclsA_closed : DClosed surfDeclsA := by
+  intro d tag τs h R
+  unfold surfDeclsA at h
+  split at h <;> cases h <;> simp [substList, STy.subst]
 
 end GluonModel.SurfTy.Proofs
